@@ -707,6 +707,32 @@ def run_discipline_like(ctx, d, inputs, label, iterative, cache):
     ctx.sample = {"object": label, "prefix": [list(p) for p in prefix], "transport": tname, "suffix": [list(s) for s in suffix]}
 
 
+def scenario_view(sc):
+    """Settings and state of a scenario that a user can read (compared between original and restored)."""
+    p = sc.formulation.optimization_problem
+    ds = p.design_space
+    v = {
+        "variables": list(ds.variable_names),
+        "bounds": canon([ds.get_lower_bounds(), ds.get_upper_bounds()]),
+        "current": canon({k: np.asarray(x).real for k, x in ds.get_current_value(as_dict=True).items()}) if ds.has_current_value else None,
+        "differentiation": (str(p.differentiation_method), repr(float(p.differentiation_step))),
+        "functions": [(f.name, str(f.f_type), f.dim) for f in [p.objective, *p.constraints, *p.observables]],
+        "minimize": bool(p.minimize_objective),
+        "tolerances": (repr(float(p.tolerances.equality)), repr(float(p.tolerances.inequality))),
+        "disciplines": [d.name for d in sc.disciplines],
+        "formulation": type(sc.formulation).__name__,
+        "clear_history_before_execute": bool(sc.clear_history_before_execute),
+    }
+    r = sc.optimization_result
+    v["result"] = None if r is None else (canon(r.x_opt), canon(r.f_opt), bool(r.is_feasible), r.optimum_index, r.n_obj_call, str(r.optimizer_name), str(r.message)[:60])
+    mda = getattr(sc.formulation, "mda", None)
+    if mda is not None:
+        st = mda.settings.model_dump()
+        v["mda"] = (type(mda).__name__, canon({k: (str(x) if not isinstance(x, (int, float, bool, type(None))) else x) for k, x in st.items() if k != "coupling_structure"}),
+                    len(mda.residual_history))
+    return v
+
+
 def run_scenario(ctx):
     from gemseo import create_scenario
     from gemseo.problems.mdo.sellar.sellar_design_space import SellarDesignSpace
@@ -726,6 +752,8 @@ def run_scenario(ctx):
         sc.add_constraint("z", constraint_type="ineq")
     else:
         kw = {"main_mda_name": "MDAGaussSeidel"} if formulation == "MDF" else {}
+        if formulation == "MDF" and t.flag(0.5, "non_default_mda_settings"):
+            kw["main_mda_settings"] = {"tolerance": 1e-8, "max_mda_iter": 7, "over_relaxation_factor": 0.9, "warm_start": True}
         sc = create_scenario(_sellar(), "obj", SellarDesignSpace(), formulation_name=formulation, scenario_type=kind, **kw)
         sc.add_constraint("c_1", constraint_type="ineq")
         sc.add_constraint("c_2", constraint_type="ineq")
@@ -742,6 +770,11 @@ def run_scenario(ctx):
         else:
             first = {"algo_name": "PYDOE_FULLFACT", "n_samples": t.randint(2, 5, "n_1")}
             second = {"algo_name": "PYDOE_LHS", "n_samples": t.randint(2, 5, "n_2"), "random_state": 3}
+    if t.flag(0.4, "non_default_problem_settings"):
+        # settings a user may have changed: they travel with the scenario
+        sc.set_differentiation_method("finite_differences", 1e-5)
+        sc.formulation.optimization_problem.tolerances.inequality = 1e-3
+        sc.clear_history_before_execute = False
     moment = t.weighted([1, 3], "moment")  # 0: fresh, 1: after a first execution
     transport = t.weighted([4, 2], "transport")
     label = f"scenario:{kind}/{formulation}"
@@ -757,6 +790,10 @@ def run_scenario(ctx):
     except Exception as exc:  # noqa: BLE001
         ctx.violate("C20.picklable", f"{label} raised={type(exc).__name__}", f"pickling {label} ({'executed' if moment else 'fresh'}) raised {exc!r}")
     pc = c.formulation.optimization_problem
+    v0, v1 = scenario_view(sc), scenario_view(c)
+    if v0 != v1:
+        diff = [k for k in v0 if v0[k] != v1.get(k)]
+        ctx.violate("C20.same_grammars", label + " settings", f"settings/state differ after restoring the scenario ({'executed' if moment else 'fresh'}): " + "; ".join(f"{k}: {v0[k]} -> {v1.get(k)}" for k in diff[:4]))
     if len(pc.database) != n_db or pc.evaluation_counter.current != counter:
         ctx.violate("C20.counters_as_values", label, f"database/counter {n_db}/{counter} before, {len(pc.database)}/{pc.evaluation_counter.current} after restoring")
     if pc.database is p.database:
